@@ -126,6 +126,10 @@ func EvalLit(pk *packages.Package, e ast.Expr, hint types.Type) *Lit {
 	}
 	switch e := e.(type) {
 	case *ast.CallExpr:
+		// a set constructor of the package: f("a", "b", …) where f only does m[x] = true for each argument
+		if l := evalSetConstructor(pk, e); l != nil {
+			return l
+		}
 		// conversion of a constant, e.g. []byte("…")
 		if len(e.Args) == 1 {
 			if ftv, ok := info.Types[e.Fun]; ok && ftv.IsType() {
@@ -447,4 +451,109 @@ func (p *Program) assignedAnywhere(pk *packages.Package, v *types.Var) bool {
 		})
 	}
 	return found
+}
+
+// evalSetConstructor: call of a function of the same package with one variadic string parameter whose body
+// makes a map[string]bool, sets m[x] = true for every x of the parameter and returns m — evaluated as the
+// map literal {arg: true, …}.
+func evalSetConstructor(pk *packages.Package, call *ast.CallExpr) *Lit {
+	id, ok := ast.Unparen(call.Fun).(*ast.Ident)
+	if !ok {
+		return nil
+	}
+	fobj, ok := pk.TypesInfo.Uses[id].(*types.Func)
+	if !ok || fobj.Pkg() != pk.Types {
+		return nil
+	}
+	sig := fobj.Type().(*types.Signature)
+	if !sig.Variadic() || sig.Params().Len() != 1 || sig.Results().Len() != 1 || call.Ellipsis.IsValid() {
+		return nil
+	}
+	mt, ok := sig.Results().At(0).Type().Underlying().(*types.Map)
+	if !ok || !isStringish(mt.Key()) {
+		return nil
+	}
+	if b, ok := mt.Elem().Underlying().(*types.Basic); !ok || b.Kind() != types.Bool {
+		return nil
+	}
+	var fd *ast.FuncDecl
+	for _, f := range pk.Syntax {
+		for _, d := range f.Decls {
+			if x, ok := d.(*ast.FuncDecl); ok && pk.TypesInfo.Defs[x.Name] == fobj {
+				fd = x
+			}
+		}
+	}
+	if fd == nil || fd.Body == nil {
+		return nil
+	}
+	// body: m := make(...); for _, x := range param { m[x] = true }; return m
+	var mObj types.Object
+	nRange, nRet, okBody := 0, 0, true
+	prm := sig.Params().At(0)
+	for _, st := range fd.Body.List {
+		switch s := st.(type) {
+		case *ast.AssignStmt:
+			if len(s.Lhs) == 1 && len(s.Rhs) == 1 {
+				if c, ok := s.Rhs[0].(*ast.CallExpr); ok {
+					if fn, ok := c.Fun.(*ast.Ident); ok && fn.Name == "make" {
+						if lid, ok := s.Lhs[0].(*ast.Ident); ok {
+							mObj = pk.TypesInfo.Defs[lid]
+							continue
+						}
+					}
+				}
+			}
+			okBody = false
+		case *ast.RangeStmt:
+			nRange++
+			xid, ok := ast.Unparen(s.X).(*ast.Ident)
+			if !ok || pk.TypesInfo.Uses[xid] != prm || s.Value == nil || len(s.Body.List) != 1 {
+				okBody = false
+				continue
+			}
+			as, ok := s.Body.List[0].(*ast.AssignStmt)
+			if !ok || len(as.Lhs) != 1 || len(as.Rhs) != 1 {
+				okBody = false
+				continue
+			}
+			ix, ok := as.Lhs[0].(*ast.IndexExpr)
+			tv := pk.TypesInfo.Types[as.Rhs[0]]
+			if !ok || tv.Value == nil || tv.Value.Kind() != constant.Bool || !constant.BoolVal(tv.Value) {
+				okBody = false
+				continue
+			}
+			mid, ok1 := ix.X.(*ast.Ident)
+			kid, ok2 := ix.Index.(*ast.Ident)
+			vid, ok3 := s.Value.(*ast.Ident)
+			if !ok1 || !ok2 || !ok3 || mObj == nil || pk.TypesInfo.Uses[mid] != mObj || pk.TypesInfo.Uses[kid] != pk.TypesInfo.Defs[vid] {
+				okBody = false
+			}
+		case *ast.ReturnStmt:
+			nRet++
+			if len(s.Results) != 1 {
+				okBody = false
+				continue
+			}
+			rid, ok := ast.Unparen(s.Results[0]).(*ast.Ident)
+			if !ok || mObj == nil || pk.TypesInfo.Uses[rid] != mObj {
+				okBody = false
+			}
+		default:
+			okBody = false
+		}
+	}
+	if !okBody || nRange != 1 || nRet != 1 {
+		return nil
+	}
+	l := &Lit{Kind: "map", Type: sig.Results().At(0).Type(), Pos: call.Pos()}
+	for _, a := range call.Args {
+		k := EvalLit(pk, a, mt.Key())
+		if _, ok := k.Str(); !ok {
+			return nil
+		}
+		l.Keys = append(l.Keys, k)
+		l.Vals = append(l.Vals, &Lit{Kind: "const", Const: constant.MakeBool(true), Pos: a.Pos()})
+	}
+	return l
 }
